@@ -379,6 +379,25 @@ def check(run, F, tier):
     conn.prune_path_cache(F)
 
 
+_riv = {}
+
+
+def reaches_interval_value(F, path, depth=0):
+    """Does the in-crate function (through at most three levels of calls / closures) read SessionExpiryInterval::val?"""
+    import facts as factsmod
+    key = (F.hash, path)
+    if key in _riv:
+        return _riv[key]
+    _riv[key] = False
+    g = F.fns.get(path)
+    if g is not None and depth <= 3:
+        for r in factsmod.fn_refs(g):
+            if r.endswith("SessionExpiryInterval::val") or (r in F.fns and reaches_interval_value(F, r, depth + 1)):
+                _riv[key] = True
+                break
+    return _riv[key]
+
+
 def check_persistence_input(run, F):
     """R6: `need_store` is the "persistent session" input of the state gate (QoS>0 PUBLISH / PUBREL are accepted outside
     Connected only when it is set).  In the v5.0 handshake handlers it may be raised only by a clean-start flag that is
@@ -410,6 +429,22 @@ def check_persistence_input(run, F):
             for _, e in conn.calls(p, "SessionExpiryInterval::val"):
                 if conn.decide(p, interned, ("c", 0, "u32"), "lt", e[4]) is True:
                     just = True
+            if not just and any(e[0] == "closure_iter" for e in p.effects):
+                # the decision was taken by a closure handed to an iterator method (`props.iter().any(|p| matches!(p,
+                # SessionExpiryInterval(v) if v.val() != 0))`): its verdict is not linked to the method's result in this
+                # abstraction, so only the structural part is judged - an interval that is matched is also looked at
+                PROP = "mqtt::packet::property::Property"
+                sei = [v for v in F.adt(PROP)["variants"] if v["name"] == "SessionExpiryInterval"]
+                d_sei = sei[0].get("discr", sei[0]["idx"]) if sei else None
+                matched = any(k[0] == "discr" and len(k) > 2 and k[2] == PROP and c == ("eq", d_sei) for k, c in p.cons.items())
+                just = not matched or bool(conn.calls(p, "SessionExpiryInterval::val"))
+            if not just:
+                # ... or by a private helper the handler asks (`connect_props_request_session_persistence(props)`): a call on
+                # the path to an in-crate function that itself looks at the interval's value
+                for _, e in conn.calls(p, ""):
+                    if e[1] in F.fns and e[1] != f["path"] and reaches_interval_value(F, e[1]):
+                        just = True
+                        break
             if not just:
                 bad = p
         name = f["name"]
